@@ -603,6 +603,13 @@ fn onto_case(rng: &mut Rng, prop: &str, tier: &str, idx: usize) -> Case {
         c.nontrivial = true;
         return c;
     }
+    if prop == "C03" && idx == 5 {
+        // 70 000 terms: the information content is computed for terms in arena slots beyond 65 535
+        let mut c = Case::new("big-arena-ic");
+        c.op(format!("bigarena 70000 {}", rng.next()));
+        c.nontrivial = true;
+        return c;
+    }
     if prop == "C03" && idx % 100 == 51 {
         let (mut c, ok, _) = big_records_case(rng, (idx / 100 % 3) as u64, false);
         if ok {
@@ -753,6 +760,14 @@ fn onto_case(rng: &mut Rng, prop: &str, tier: &str, idx: usize) -> Case {
         "C03" => {
             c.op("oracle ic 0".to_string());
             c.nontrivial = inh > 0;
+            if with_roots && rng.chance(1, 3) {
+                // construction path `from_bytes(as_bytes())`: the records without terms count in N
+                // after the round trip as well
+                c.op("roundtrip 0 9".to_string());
+                c.op("dump 9".to_string());
+                c.op("oracle ic 9".to_string());
+                c.stat("binary_round_trip_path", 1);
+            }
         }
         _ => {}
     }
@@ -1041,6 +1056,15 @@ fn c19(rng: &mut Rng, idx: usize) -> Case {
         c.nontrivial = true;
         return c;
     }
+    if idx % 10 == 6 {
+        // construction path: the JAX text files (stanzas in any order, tag lines in any order,
+        // `[Typedef]` stanzas among the terms)
+        let mut c = crate::gen_c09::c09(rng, "quick", 0);
+        c.tag = format!("text-{}", c.tag);
+        c.stat("text_route", 1);
+        c.op("oracle defaults 0".to_string());
+        return c;
+    }
     let mut c = Case::new("defaults");
     let missing = rng.below(8); // 0: no HP:1, 1: no HP:118, else both present
     let max_terms = *rng.pick(&[4usize, 8, 15, 30]);
@@ -1158,6 +1182,21 @@ fn c10(rng: &mut Rng, idx: usize) -> Case {
         c.nontrivial = true;
         return c;
     }
+    if idx % 6 == 5 {
+        // construction path: the JAX text files (names with `: `, CRLF rows, shuffled stanzas):
+        // names and ids are found as written
+        let mut c = crate::gen_c09::c09(rng, "quick", 0);
+        c.tag = format!("text-{}", c.tag);
+        c.stat("text_route", 1);
+        c.op("sweep 0".to_string());
+        c.op("iter 0".to_string());
+        for q in ["", "a", "é", "ABC1", "GENE", "Marfan"] {
+            c.op(format!("genebyname 0 {}", name(q)));
+            c.op(format!("omimsearch 0 {}", name(q)));
+        }
+        c.nontrivial = true;
+        return c;
+    }
     let mut c = Case::new("lookups");
     let max_terms = *rng.pick(&[3usize, 10, 40]);
     let wr = rng.chance(1, 2);
@@ -1211,6 +1250,19 @@ fn c10(rng: &mut Rng, idx: usize) -> Case {
         let fv = 1 + rng.below(3) as u8;
         facts_to_fops(rng, &f, &flags, fv, 0, true, &mut c);
     } else {
+        if with_roots {
+            // names at the one-byte limit of the file format (the round trip below keeps up to 255
+            // bytes of whole characters)
+            let nm = match rng.below(4) {
+                0 => format!("{}é", "n".repeat(253)),
+                1 => "x".repeat(255),
+                2 => format!("{}é", "n".repeat(254)),
+                _ => "y".repeat(254),
+            };
+            let i = rng.below(f.terms.len() as u64) as usize;
+            f.terms[i].1 = nm;
+            c.stat("names_at_the_255_byte_limit", 1);
+        }
         // with rejected calls (absent terms, also with record ids that are never registered)
         facts_to_prog(rng, &f, &ProgOpts { shuffle: true, failing_permille: 300, build_defaults: with_roots, slot: 0 }, &mut c);
     }
@@ -1270,6 +1322,13 @@ fn c10(rng: &mut Rng, idx: usize) -> Case {
     for q in queries {
         c.op(format!("genebyname 0 {}", name(&q)));
         c.op(format!("omimsearch 0 {}", name(&q)));
+    }
+    if with_roots {
+        // the reloaded ontology answers like the original (names of up to 255 bytes in full)
+        c.op("roundtrip 0 6".to_string());
+        c.op("dump 6".to_string());
+        c.op("sweep 6".to_string());
+        c.stat("binary_round_trips", 1);
     }
     // a clone answers like the original: sweep, iteration, the lookups at the extreme ids
     c.op("clone 0 5".to_string());
